@@ -213,20 +213,20 @@ Print Assumptions C07_loop_removals_guard.
       exact set - the tables of the version, the new journal, the new manifest - is on storage, and every file on
       storage belongs to the exact set, or is a journal numbered above the new one; the latter needs a manifest
       whose journal number is above its next file number. *)
-Theorem C07_open_exact : forall l v0 ru ops s v fl bad,
+Theorem C07_open_exact : forall l v0 ru ops s v fl mbad bad,
   NoDup l -> SweepInv.view_wf v0 -> Sweep.run (Sweep.boot l v0 ru) ops = Some s ->
   Sweep.opened s = false -> In v (Sweep.views s) ->
-  let s' := Sweep.open_db v fl bad s in
+  let s' := Sweep.open_db v fl mbad bad s in
   Sweep.opened s' = true ->
   (forall f, In f (Sweep.exact_set s') -> In f (Sweep.files s')) /\
   (forall f, In f (Sweep.files s') ->
      In f (Sweep.exact_set s') \/
      exists n, f = (Sweep.FJournal, n) /\ Sweep.journal s' < n /\ Sweep.v_next v < Sweep.v_jnum v).
 Proof.
-  intros l v0 ru ops s v fl bad Hl Hv Hr Ho Hin.
+  intros l v0 ru ops s v fl mbad bad Hl Hv Hr Ho Hin.
   pose proof (SweepOpen.run_Good ops _ _ (SweepOpen.boot_Good l v0 ru Hl Hv) Hr) as H.
   unfold SweepInv.Good in H. rewrite Ho in H.
-  intros s' Ho'. destruct (proj2 (SweepOpen.open_db_spec v fl bad s H Hin) Ho') as (E1&E2&_). split; assumption.
+  intros s' Ho'. destruct (proj2 (SweepOpen.open_db_spec v fl mbad bad s H Hin) Ho') as (E1&E2&_). split; assumption.
 Qed.
 Print Assumptions C07_open_exact.
 
@@ -458,7 +458,7 @@ Proof. vm_compute. reflexivity. Qed.
    the listing is the exact set plus the five files the residue names, and the next Open - under either of the
    two possible manifest contents - leaves exactly the exact set. *)
 Definition ex_life : list Sweep.op :=
-  [Sweep.OOpen 0 [] []; Sweep.ORotate true false; Sweep.OBegin Sweep.KFlush []; Sweep.OCreate Sweep.KFlush true;
+  [Sweep.OOpen 0 [] false []; Sweep.ORotate true false; Sweep.OBegin Sweep.KFlush []; Sweep.OCreate Sweep.KFlush true;
    Sweep.OFinish Sweep.KFlush; Sweep.OCommit Sweep.KFlush false Sweep.COk true; Sweep.ODropFrozen false;
    Sweep.OAcquire; Sweep.OPin 4;
    Sweep.ORotate true false; Sweep.OBegin Sweep.KFlush []; Sweep.OCreate Sweep.KFlush true; Sweep.OFinish Sweep.KFlush;
@@ -488,7 +488,7 @@ Proof. vm_compute. reflexivity. Qed.
 
 Example C07_ex_life_reopen :
   forallb (fun vi =>
-    match Sweep.run (Sweep.boot_new true) (ex_life ++ [Sweep.OClose; Sweep.OOpen vi [] []]) with
+    match Sweep.run (Sweep.boot_new true) (ex_life ++ [Sweep.OClose; Sweep.OOpen vi [] false []]) with
     | Some s =>
         Sweep.opened s && fds_sub (Sweep.files s) (Sweep.exact_set s) && fds_sub (Sweep.exact_set s) (Sweep.files s)
         && forallb (fun x => negb (snd x)) (Sweep.trace s)
@@ -502,7 +502,7 @@ Proof. vm_compute. reflexivity. Qed.
 Example C07_ex_journal_zero :
   match Sweep.run (Sweep.boot [(Sweep.FManifest, 3); (Sweep.FJournal, 0); (Sweep.FJournal, 7); (Sweep.FJournal, 9)]
                      {| Sweep.v_tabs := []; Sweep.v_jnum := 9; Sweep.v_prev := Some 7; Sweep.v_next := 10; Sweep.v_man := 3 |} true)
-          [Sweep.OOpen 0 [0; 0] []] with
+          [Sweep.OOpen 0 [0; 0] false []] with
   | Some s => Sweep.opened s && existsb (fun x => Sweep.fd_eqb (fst x) (Sweep.FJournal, 0) && snd x) (Sweep.trace s)
               && forallb (fun x => Sweep.fd_eqb (fst x) (Sweep.FJournal, 0) || negb (snd x)) (Sweep.trace s)
   | None => false
@@ -514,7 +514,7 @@ Proof. vm_compute. reflexivity. Qed.
 Example C07_ex_stray_journal_above :
   match Sweep.run (Sweep.boot [(Sweep.FManifest, 3); (Sweep.FJournal, 30)]
                      {| Sweep.v_tabs := []; Sweep.v_jnum := 50; Sweep.v_prev := None; Sweep.v_next := 10; Sweep.v_man := 3 |} true)
-          [Sweep.OOpen 0 [] []] with
+          [Sweep.OOpen 0 [] false []] with
   | Some s => Sweep.opened s && Sweep.fmem (Sweep.files s) (Sweep.FJournal, 30) && (Sweep.journal s =? 10)
   | None => false
   end = true.
